@@ -141,7 +141,7 @@ pub fn spec(id: &'static str, tier: Tier) -> Option<CheckSpec<Case>> {
     if assumptions.is_empty() {
         assumptions = book::assumptions(id);
     }
-    Some(CheckSpec { id, tier, rule, assumptions, parts, run: Box::new(move |c| outcome(id, c)), simplify: Some(Box::new(simplify)), extra: json!({}) })
+    Some(CheckSpec { id, tier, rule, assumptions, parts, run: Box::new(move |c| outcome(id, c)), simplify: Some(Box::new(simplify)), extra: json!({}), hang_limit_s: if id == "C09" || id == "C15" { None } else { Some(20) } })
 }
 
 pub fn run(id: &str, tier: Tier) -> i32 {
